@@ -89,7 +89,9 @@ claim("C12", "type-resolved who-may-call over all workspace MIR + enumerated tab
       "sorted or through order-insensitive results; (b) no schedule-dependent id type implements Ord, and the functions that compare or "
       "expose unstable interned ids are exactly an enumerated, individually argued set (two of them are genuine defects, listed as known "
       "findings); (c) the parallel warm-up returns nothing and ensure_diagnostics returns the sequential result; no ambient input (env, "
-      "clock, randomness, thread/process id) is read in code reachable from a tracked query outside the table." + DECIDES +
+      "clock, randomness, thread/process id) is read in code reachable from a tracked query outside the table; (d) no closure handed to a rayon "
+      "consumer / join / spawn / scope writes a shared-state primitive (lock, RefCell, atomic, channel), so values leave a parallel body only through "
+      "its return value, which the collectors put back in input order." + DECIDES +
       " That the remaining order sources (BFS order, OrderedHash* insertion order) are deterministic functions of the sources is not decided.",
       "trusted: rustc MIR and type resolution, fact dumper; tables c12_hash_iter.tsv / c12_id_order.tsv / c12_ambient.tsv carry the reasons",
       "DESIGN.md section 4, C12")
@@ -115,7 +117,8 @@ claim("C07", "must-pass-through on MIR (validation dominates constant constructi
       "family (the one DivRem::div_rem and its run-time projections `/` and `%` use), and a compile-time remainder comes from a div_rem whose "
       "quotient is validated; the value handed to the range tests is computed with exact BigInt arithmetic; wherever the members of a struct "
       "constructor expression are turned into an ordered sequence, the sequence is driven by the declared member order, as at run time; the gate that "
-      "admits a call into a constant says yes only for the panic function, a const signature, or a core-crate impl of a registered const trait." + DECIDES + " Agreement of the remaining BigInt arithmetic with the libfuncs on values (conversions, shifts, "
+      "admits a call into a constant says yes only for the panic function, a const signature, or a core-crate impl of a registered const trait; "
+      "the `!=` arm of the evaluator calls the same routines as the `==` arm (it is its negation)." + DECIDES + " Agreement of the remaining BigInt arithmetic with the libfuncs on values (conversions, shifts, "
       "wrapping) is not decided. One genuine defect found by these rules (`MIN % -1` accepted at compile time) was repaired in /repo (fix: commit 303bcdf).",
       "trusted: rustc MIR, fact dumper; assumes validate_literal and canonical_felt252 implement the type ranges / the field correctly",
       "DESIGN.md section 4, C07")
